@@ -111,7 +111,7 @@ LazyCullOKc(S1, Vs, cl) ==
 Refresh(Mo, dbNew, chg, me) ==
     [c \in DOMAIN Mo.call |->
         LET cl == Mo.call[c] IN
-        IF cl.op = "none" \/ c = me \/ cl.st # "open" \/ IsLoopOp(cl.op) \/ Mo.tx[c].d > 0
+        IF cl.op = "none" \/ c = me \/ cl.st # "open" \/ (IsLoopOp(cl.op) /\ ~IsQueueLoop(cl.op)) \/ Mo.tx[c].d > 0
         THEN cl
         ELSE [cl EXCEPT !.cand = @ \cup {Dispatch(dbNew, cl).ret},
                         !.touched = @ \cup chg,
@@ -160,7 +160,7 @@ OnCall(Mo, e) ==
                                !.tx[c].w = res.S], "")
     ELSE LET cl == NewCall(e.op, e.a, e.now, "open", Mo.db)
          IN V(TRUE, [Mo EXCEPT !.call[c] =
-                        IF IsLoopOp(e.op) THEN cl ELSE [cl EXCEPT !.cand = {Dispatch(Mo.db, cl).ret}]], "")
+                        IF IsLoopOp(e.op) /\ ~IsQueueLoop(e.op) THEN cl ELSE [cl EXCEPT !.cand = {Dispatch(Mo.db, cl).ret}]], "")
 
 Publish(Mo, e, newdb0) ==
     \* common part of commit / autocommit: file references, counters, other calls
@@ -312,6 +312,8 @@ OnRet(Mo, e) ==
             done1
        ELSE IF IsQueueLoop(cl.op)
        THEN IF cl.fin /\ e.ret = cl.exp THEN done1
+            \* no transaction at all: a lock-free observation that removed nothing (an empty queue, or a peek)
+            ELSE IF cl.st = "open" /\ e.ret \in cl.cand /\ (e.ret.k # "item" \/ cl.op # "pull") THEN done1
             ELSE Fail(Mo, "C05/C10 " \o cl.op \o " returned " \o ToJson(e.ret) \o " expected " \o ToJson(cl.exp))
        ELSE IF IsLoopOp(cl.op)
        THEN IF e.ret = RInt(cl.count) THEN done1
